@@ -362,3 +362,13 @@ def record_dmrg(ptn, H, psi, alg, nsweeps, numiter, tol_split=0.0, tr=None, comp
     except BaseException as ex:  # noqa
         tr.append(dict(ev='raise', exc=f'{type(ex).__name__}: {str(ex)[:90]}'))
     return tr
+
+
+def relax(trace):
+    """results-only view of a TraceSweep trace (pass 2 of parallel.validate_chunks): local-problem events are removed"""
+    out = []
+    for r in trace:
+        if r.get('ev') in ('local', 'local_unlocated'):
+            continue
+        out.append(dict(r, hooks_missing=True) if r.get('ev') == 'end' else r)
+    return out
